@@ -164,7 +164,7 @@ class Gate:
 
     def _wait_for(self, ev, i):
         with self.cv:
-            ok = self.cv.wait_for(lambda: self.failed or (self.pos < len(self.events) and self.events[self.pos]["ev"] == ev and self.events[self.pos]["i"] == i), timeout=60)
+            ok = self.cv.wait_for(lambda: self.failed or (self.pos < len(self.events) and self.events[self.pos]["ev"] == ev and self.events[self.pos]["i"] == i), timeout=900)
             if not ok:
                 self.failed = True
                 self.cv.notify_all()
@@ -213,8 +213,25 @@ def _ops(loader, M, gate_fn=None):
         ("align", lambda: _mol_array(loader.align(tmpl, max_shifts=1.5, alignment_model=M))),
         ("score", lambda: np.asarray(loader.score([tmpl], alignment_model=M)[0])),
         ("landscape", lambda: loader.construct_landscape(tmpl, max_shifts=1.0, alignment_model=M).compute()),
+        # with a missing-wedge model every task uses its own molecule's orientation on the SHARED template
+        ("align_tilt", lambda: _mol_array(loader.align(tmpl, max_shifts=1.5, alignment_model=M, tilt=(-50.0, 60.0), cutoff=0.4))),
+        ("score_tilt", lambda: np.asarray(loader.score([tmpl], alignment_model=M, tilt=(-50.0, 60.0))[0])),
     ]
     return out
+
+
+def _one_at_a_time(loader, M):
+    """Order-free reference: every molecule aligned / scored alone with a fresh model."""
+    rng = np.random.default_rng(9)
+    tmpl = rng.normal(size=(7, 7, 7)).astype(np.float32)
+    al, sc = [], []
+    for i in range(loader.count()):
+        one = loader.replace(molecules=loader.molecules.subset([i]))
+        al.append(_mol_array(one.align(tmpl, max_shifts=1.5, alignment_model=M, tilt=(-50.0, 60.0), cutoff=0.4)))
+        sc.append(np.asarray(one.score([tmpl], alignment_model=M, tilt=(-50.0, 60.0))[0]))
+    n = loader.count()
+    a = np.stack(al)  # (n, 3 + 4 + 1)
+    return dict(align_tilt=np.concatenate([a[:, 0:3].ravel(), a[:, 3:7].ravel(), a[:, 7]]), score_tilt=np.concatenate(sc))
 
 
 def _mol_array(ldr):
@@ -267,6 +284,8 @@ def replay_real(case) -> dict:
     loader0, tomo = _loader(n)
     with dask.config.set(scheduler="synchronous"):
         ref = {k: np.asarray(f()) for k, f in _ops(loader0, M)}
+        # results are a function of each task's own inputs: the batch must equal one-molecule-at-a-time runs
+        ref.update(_one_at_a_time(_loader(n)[0], M))
     fails = []
     desc = dict(part=case["part"], model=case["model"], n=n, scheduler=case.get("scheduler"), workers=case.get("workers"), chunks=case.get("chunks"))
     if case["part"] == "scheduler":
